@@ -150,14 +150,28 @@ func checkString(e *Enum, s string) {
 	if p := guard(func() { fn, args, err = c12Call.ParseData(s) }); p != nil {
 		e.Fail(P, "total", "callArgsParser-panic", fmt.Sprintf("callArgsParser.ParseData(%q) panicked: %v", s, p), "case", s)
 	} else {
+		// Agreement is demanded on the image of the builders only (the statement: parsers are total
+		// and inverse to the builders): s is canonical iff re-building the reference reading gives s
+		// back (function without '@', lower-case even-length hex). Elsewhere only totality.
 		rfn, rargs, ok := refCall(s)
+		canonical := false
+		if ok {
+			rebuilt := rfn
+			for _, a := range rargs {
+				rebuilt += "@" + hex.EncodeToString(a)
+			}
+			canonical = rebuilt == s
+		}
 		switch {
-		case ok != (err == nil):
-			e.Fail(P, "agree", "callArgsParser-accept-reject", fmt.Sprintf("callArgsParser.ParseData(%q): err=%v, the reference tokenizer accepts=%v", s, err, ok), "case", s)
-		case ok && (fn != rfn || !argsEqStrict(args, rargs)):
-			e.Fail(P, "agree", "callArgsParser-content", fmt.Sprintf("callArgsParser.ParseData(%q) = %q %x, reference %q %x", s, fn, args, rfn, rargs), "case", s)
-		case !ok && (fn != "" || args != nil):
+		case canonical && err != nil:
+			e.Fail(P, "agree", "callArgsParser-accept-reject", fmt.Sprintf("callArgsParser.ParseData(%q) fails (%v) on a string the builder produces", s, err), "case", s)
+		case canonical && (fn != rfn || !argsEqStrict(args, rargs)):
+			e.Fail(P, "agree", "callArgsParser-content", fmt.Sprintf("callArgsParser.ParseData(%q) = %q %x, the builder encoded %q %x", s, fn, args, rfn, rargs), "case", s)
+		case err != nil && (fn != "" || args != nil):
 			e.Fail(P, "total", "callArgsParser-result-and-error", fmt.Sprintf("callArgsParser.ParseData(%q) returned both a result and an error", s), "case", s)
+		}
+		if canonical {
+			e.Case(fmt.Sprintf("call:canonical:args%d", len(rargs)))
 		}
 		e.Case(fmt.Sprintf("call:ok%v:args%d", err == nil, len(args)))
 	}
@@ -167,11 +181,14 @@ func checkString(e *Enum, s string) {
 		e.Fail(P, "total", "deployArgsParser-panic", fmt.Sprintf("deployArgsParser.ParseData(%q) panicked: %v", s, p), "case", s)
 	} else {
 		r, ok := refDeploy(s)
+		canonical := ok && s == strings.ToLower(s)
 		switch {
-		case ok != (err == nil) || (err == nil) != (d != nil):
-			e.Fail(P, "agree", "deployArgsParser-accept-reject", fmt.Sprintf("deployArgsParser.ParseData(%q): err=%v result=%v, the reference accepts=%v", s, err, d != nil, ok), "case", s)
-		case ok && (!bytes.Equal(d.Code, r.code) || !bytes.Equal(d.VMType, r.vmType) || d.CodeMetadata != r.meta || !argsEqStrict(d.Arguments, r.args)):
-			e.Fail(P, "agree", "deployArgsParser-content", fmt.Sprintf("deployArgsParser.ParseData(%q) = %+v, reference %+v", s, d, r), "case", s)
+		case (err == nil) != (d != nil):
+			e.Fail(P, "total", "deployArgsParser-result-xor-error", fmt.Sprintf("deployArgsParser.ParseData(%q): err=%v result=%v", s, err, d != nil), "case", s)
+		case canonical && err != nil:
+			e.Fail(P, "agree", "deployArgsParser-accept-reject", fmt.Sprintf("deployArgsParser.ParseData(%q) fails (%v) on well-formed deploy data", s, err), "case", s)
+		case canonical && (!bytes.Equal(d.Code, r.code) || !bytes.Equal(d.VMType, r.vmType) || d.CodeMetadata != r.meta || !argsEqStrict(d.Arguments, r.args)):
+			e.Fail(P, "agree", "deployArgsParser-content", fmt.Sprintf("deployArgsParser.ParseData(%q) = %+v, encoded %+v", s, d, r), "case", s)
 		}
 		e.Case(fmt.Sprintf("deploy:ok%v", err == nil))
 	}
@@ -181,8 +198,9 @@ func checkString(e *Enum, s string) {
 		e.Fail(P, "total", "storageUpdatesParser-panic", fmt.Sprintf("GetStorageUpdates(%q) panicked: %v", s, p), "case", s)
 	} else {
 		r, ok := refStorage(s)
-		bad := ok != (err == nil)
-		if !bad && ok {
+		canonical := ok && s == strings.ToLower(s) && !strings.HasPrefix(s, "@")
+		bad := canonical && err != nil
+		if !bad && canonical {
 			if len(su) != len(r) {
 				bad = true
 			}
@@ -510,5 +528,5 @@ func C12(tier Tier) int {
 	return FinishEnum(P, tier, "exploration", start,
 		fmt.Sprintf("exhaustive: every string of length 0..%d over {x,@,0,a,A} (%d strings) into the three string parsers against a reference tokenizer; ParseESDTTransfers for 4 function names x sender=/!=receiver x every argument list of length 0..%d over a %d-item adversarial pool (wrap-around counts, payloads with/without Value, truncated); round trips of %d function names x %d argument lists through the tx-data builder and the built-in encoder rule, deploy data (8 flag combinations) and storage-update lists of length 1..3. A class is distinct by (parser, accept/reject, result size)", L, total, maxLen, len(pool), len(names), len(argLists)),
 		[]string{"function names contain no '@' (excluded by the statement); an empty first storage offset is not representable (leading '@' is a separator prefix) and is excluded from the round-trip domain", "the reference tokenizer is trusted"},
-		true, nil, []string{"call:oktrue:args2", "call:okfalse:args0", "deploy:oktrue", "storage:oktrue:n1", "rt-typed"}, append(ws, rt)...)
+		true, nil, []string{"call:oktrue:args2", "call:okfalse:args0", "call:canonical:args2", "deploy:oktrue", "storage:oktrue:n1", "rt-typed"}, append(ws, rt)...)
 }
